@@ -334,7 +334,10 @@ def prog_scenario(rng, arities=(1, 2, 3, 4), n=None):
             d = [rng.choice(desc[p]) for p in vp]
             if d not in defs:
                 defs.append(d)
-        methods.append({'vp': vp, 'defs': defs})
+        # how each virtual parameter is passed: by reference (virtual_<C&>) or as a virtual_ptr<C> (the walk reads the v-table
+        # pointer from the argument itself; the consistency check of the static offsets must not depend on it)
+        kinds = ['ptr' if rng.chance(1, 3) else 'ref' for _ in vp]
+        methods.append({'vp': vp, 'defs': defs, 'kinds': kinds})
     return {'n': n, 'parents': {str(k): v for k, v in parents.items()}, 'methods': methods}
 
 
@@ -356,17 +359,22 @@ def prog_source(sc):
          '#include <fstream>',
          '#endif',
          '#include <yorel/yomm2/decode.hpp>',
-         '#include <iostream>', '#include <cstdint>']
+         '#include <iostream>', '#include <cstdint>',
+         'using yorel::yomm2::virtual_ptr;']
     for c in range(1, n + 1):
         bases = ', '.join('C%d' % b for b in par[c])
         L.append('struct C%d%s { %s };' % (c, (' : ' + bases) if bases else '', 'virtual ~C%d() {}' % c))
     L.append('register_classes(%s);' % ', '.join('C%d' % c for c in range(1, n + 1)))
     for mi, m in enumerate(sc['methods']):
-        L.append('declare_method(int, m%d, (%s));' % (mi, ', '.join('virtual_<C%d&>' % c for c in m['vp'])))
+        kinds = m.get('kinds') or ['ref'] * len(m['vp'])
+        L.append('declare_method(int, m%d, (%s));' % (mi, ', '.join(('virtual_ptr<C%d>' if k == 'ptr' else 'virtual_<C%d&>') % c
+                                                                      for c, k in zip(m['vp'], kinds))))
     L += ['#ifdef OFFSETS_FILE', '#include OFFSETS_FILE', '#endif']
     for mi, m in enumerate(sc['methods']):
         for di, d in enumerate(m['defs']):
-            L.append('define_method(int, m%d, (%s)) { return %d; }' % (mi, ', '.join('C%d&' % c for c in d), di))
+            kinds = m.get('kinds') or ['ref'] * len(m['vp'])
+            L.append('define_method(int, m%d, (%s)) { return %d; }' % (mi, ', '.join(('virtual_ptr<C%d>' if k == 'ptr' else 'C%d&') % c
+                                                                                        for c, k in zip(d, kinds)), di))
     L += ['template<class F> void call(const char* what, F f) {',
           '    std::cout << what << " = ";',
           '    try { auto r = f(); std::cout << "d" << r; }',
@@ -398,7 +406,10 @@ def prog_source(sc):
             tuples = [t + [c] for t in tuples for c in d]
         step = max(1, len(tuples) // 40)
         for t in tuples[::step]:
-            L.append('    call("m%d %s", [&] { return m%d(%s); });' % (mi, ' '.join(map(str, t)), mi, ', '.join('o%d' % c for c in t)))
+            kinds = m.get('kinds') or ['ref'] * len(m['vp'])
+            args = ', '.join(('virtual_ptr<C%d>(static_cast<C%d&>(o%d))' % (p, p, c)) if k == 'ptr' else 'o%d' % c
+                             for c, p, k in zip(t, m['vp'], kinds))
+            L.append('    call("m%d %s", [&] { return m%d(%s); });' % (mi, ' '.join(map(str, t)), mi, args))
             ncalls += 1
     L += ['    return 0;', '#endif', '}']
     return '\n'.join(L) + '\n', ncalls
